@@ -13,6 +13,13 @@ use std::time::Instant;
 
 pub const VERIF_ROOT: &str = "/verif";
 
+/// Where a run writes (evidence/, replays/): /verif, or `$VERIF_OUT` when the
+/// harness is exercised against a scratch copy of the repository (mutation
+/// runs) and must not touch the committed evidence.
+pub fn out_root() -> String {
+    std::env::var("VERIF_OUT").unwrap_or_else(|_| VERIF_ROOT.to_string())
+}
+
 #[derive(Clone, Copy, PartialEq, Eq, Debug)]
 pub enum Tier {
     Quick,
@@ -268,7 +275,7 @@ impl Ctx {
                 let g = running.lock().unwrap();
                 for (_, (t0, sub, choices, limit)) in g.iter() {
                     if now.duration_since(*t0).as_secs() > *limit {
-                        let dir = format!("{VERIF_ROOT}/replays/{id}");
+                        let dir = format!("{}/replays/{id}", out_root());
                         let _ = std::fs::create_dir_all(&dir);
                         let p = format!("{dir}/hang-{:016x}.json", hash64(&choices_bytes(choices)));
                         let _ = std::fs::write(
@@ -392,7 +399,7 @@ impl Ctx {
     }
 
     fn write_replay(&self, sub: &str, choices: Option<&[u32]>, payload: Option<&Value>, f: &Failure) -> String {
-        let dir = format!("{VERIF_ROOT}/replays/{}", self.id);
+        let dir = format!("{}/replays/{}", out_root(), self.id);
         let _ = std::fs::create_dir_all(&dir);
         let body = json!({
             "property": self.id,
@@ -801,7 +808,7 @@ impl Ctx {
             "violations": st.violations.len(),
         });
         if !self.replay_mode() {
-            let dir = format!("{VERIF_ROOT}/evidence");
+            let dir = format!("{}/evidence", out_root());
             let _ = std::fs::create_dir_all(&dir);
             let p = format!("{dir}/{}.json", self.id);
             std::fs::write(&p, serde_json::to_string_pretty(&ev).unwrap() + "\n")
@@ -849,18 +856,27 @@ fn panic_outcome(e: Box<dyn std::any::Any + Send>, choices: &[u32]) -> Outcome {
 }
 
 pub fn load_findings(id: &str) -> Vec<Finding> {
-    let p = Path::new(VERIF_ROOT).join("known_findings.json");
-    let Ok(text) = std::fs::read_to_string(p) else {
-        return vec![];
-    };
-    let all: Vec<Finding> = match serde_json::from_str(&text) {
-        Ok(v) => v,
-        Err(e) => {
-            eprintln!("known_findings.json does not parse: {e}");
-            std::process::exit(2);
-        }
-    };
-    all.into_iter().filter(|f| f.property == id).collect()
+    // known_findings.json (all properties) plus, while a check is being
+    // developed, known_findings.d/<ID>.json (same format, that property only)
+    let mut out = vec![];
+    let files = [
+        Path::new(VERIF_ROOT).join("known_findings.json"),
+        Path::new(VERIF_ROOT).join("known_findings.d").join(format!("{id}.json")),
+    ];
+    for p in files {
+        let Ok(text) = std::fs::read_to_string(&p) else {
+            continue;
+        };
+        let all: Vec<Finding> = match serde_json::from_str(&text) {
+            Ok(v) => v,
+            Err(e) => {
+                eprintln!("{} does not parse: {e}", p.display());
+                std::process::exit(2);
+            }
+        };
+        out.extend(all.into_iter().filter(|f| f.property == id));
+    }
+    out
 }
 
 /// Install a panic hook that stays silent (cases that panic are reported
